@@ -9,9 +9,9 @@ Require Import TL.Model.Ctx TL.Proofs.CtxLemmas.
 Require Import TL.Model.Core TL.Model.Build TL.Proofs.BuildLemmas.
 Require Import TL.Model.CtxBridge TL.Proofs.CtxBridge.
 
-(* Core annotations with Build's is_ref / unwrap / fref (made total: fref_tot) and ty_eqb are a key family in the
-   sense of C16: every law holds, none fails. *)
-Theorem C16B_key_laws : key_laws ty ty_eqb is_ref unwrap fref_tot.
+(* Core annotations with Build's is_ref / unwrap / fref (made total: fref_tot), evaluate (names_ty r k = "r evaluates to
+   k") and ty_eqb are a key family in the sense of C16: every law holds, none fails. *)
+Theorem C16B_key_laws : key_laws ty ty_eqb is_ref unwrap fref_tot names_ty.
 Proof. exact ty_key_laws. Qed.
 
 (* Build's pure lookup IS C16's specification lookup on the dict the context denotes (all contexts, overwrites
@@ -22,23 +22,34 @@ Theorem C16B_getitem_is_spec_lookup : forall (cx : ctx) (k : ty),
   getitem cx k = match cspec_lookup (state_of cx) k with Some r => Core.Ok r | None => Core.Raise EKey end.
 Proof. exact getitem_spec. Qed.
 
+(* What the scan of the repaired __missing__ (a stored reference that EVALUATES to the key, whatever module it was
+   written in) means here: nothing new.  Build.v is module-blind -- TRef c stands for every ForwardRef naming class
+   c -- so on a context whose reference keys are canonical (keys_wf) a stored reference evaluating to k is
+   forwardref(k) itself, which the step before has just missed.  Build.getitem (unchanged: three routes) therefore
+   still IS the specification lookup with its fourth route; before the repair it was the real class that was narrower
+   than Build.v (it missed the reference written in an importing module, which Build.v cannot tell apart). *)
+Theorem C16B_scan_adds_nothing : forall (S : cst) (cx : ctx) (k : ty),
+  (forall k', cfind S k' = find_key k' cx) -> keys_wf cx = true -> find_key (fref_tot k) cx = None ->
+  Ctx.first_named ty routine is_ref names_ty S k = None.
+Proof. exact no_foreign. Qed.
+
 (* After ANY history allowed by C16's ops_ok (insertions of fresh keys, lookups, `in`; lookups of the real class
    write memo entries), context[k] on the real class's model shows exactly what Build's getitem computes on the
    context holding the history's insertions: the value, or KeyError. *)
 Theorem C16B_item : forall (fuel : nat) (ops : list cop) (k : ty),
-  2 <= fuel -> cops_ok [] ops = true -> keys_wf (ctx_of ops []) = true ->
+  1 <= fuel -> cops_ok [] ops = true -> keys_wf (ctx_of ops []) = true ->
   crun fuel [] (ops ++ [OItem k]) = cspec_run [] ops ++ [out_item (getitem (ctx_of ops []) k)].
 Proof. exact run_item_is_getitem. Qed.
 
 (* context.get(k, d) likewise is Build's ctx_get with the default *)
 Theorem C16B_get : forall (fuel : nat) (ops : list cop) (k : ty) (d : routine),
-  2 <= fuel -> cops_ok [] ops = true -> keys_wf (ctx_of ops []) = true ->
+  1 <= fuel -> cops_ok [] ops = true -> keys_wf (ctx_of ops []) = true ->
   crun fuel [] (ops ++ [OGet k d]) = cspec_run [] ops ++ [out_get (ctx_get (ctx_of ops []) k) d].
 Proof. exact run_get_is_ctx_get. Qed.
 
 (* the same as two equivalences, for a context given as the list of its ctx_sets (each ctx_set k r = OSet k r) *)
 Theorem C16B_getitem_iff : forall (fuel : nat) (cx : ctx) (k : ty) (r : routine),
-  2 <= fuel -> cops_ok [] (sets_of cx) = true -> keys_wf cx = true ->
+  1 <= fuel -> cops_ok [] (sets_of cx) = true -> keys_wf cx = true ->
   (getitem cx k = Core.Ok r <-> last (crun fuel [] (sets_of cx ++ [OItem k])) OOther = OVal r) /\
   ((exists e, getitem cx k = Core.Raise e) <-> last (crun fuel [] (sets_of cx ++ [OItem k])) OOther = OKeyError).
 Proof. exact getitem_iff_run. Qed.
@@ -88,7 +99,18 @@ Theorem C16B_stale_memo :
   getitem (ctx_of sOps []) sNT = Core.Ok sReal.
 Proof. vm_compute. repeat split. Qed.
 
+(* ---- what keys_wf excludes since the scan exists: a second spelling of a reference ------------------------ *)
+(* TRefTo (TName 0) evaluates to the class TName 0 like TRef 0 does, but is not forwardref(TName 0) = TRef 0: the
+   real class (scan) finds the value stored under it, Build's three-route getitem does not. *)
+Theorem C16B_second_spelling :
+  keys_wf [(TRefTo (TName 0), RLeaf 3)] = false /\
+  crun 1 [] [OSet (TRefTo (TName 0)) (RLeaf 3); OItem (TName 0)] = [OUnit; OVal (RLeaf 3)] /\
+  getitem [(TRefTo (TName 0), RLeaf 3)] (TName 0) = Core.Raise EKey.
+Proof. vm_compute. repeat split. Qed.
+
 Print Assumptions C16B_key_laws.
+Print Assumptions C16B_scan_adds_nothing.
+Print Assumptions C16B_second_spelling.
 Print Assumptions C16B_getitem_is_spec_lookup.
 Print Assumptions C16B_item.
 Print Assumptions C16B_get.
